@@ -52,7 +52,7 @@ class Session:
         t0 = time.time()
         # 1. nonlinear terms abstracted to uninterpreted functions: decides most obligations by congruence
         try:
-            ab = abstract_nl(hyps + [z3.Not(goal)])
+            ab = abstract_nl(hyps + [z3.Not(goal)], c.__dict__.setdefault("_absmemo_prove", {}))
             sa = z3.Solver()
             sa.set("timeout", 15000)
             for h in ab:
